@@ -1,19 +1,36 @@
 """C14 — MBXML variable-length integers and floats decode to what was encoded (DESIGN §5 C14).
 
 Correspondence: every writer / reader / XML-view formula of okdmr.dmrlib.motorola.mbxml against the Lean
-model (Model/Mbxml.lean) through drv_c14.  Oracle (property as stated, on the real code only): read(write(v))
-returns v and consumes exactly the written octets with arbitrary octets before and after; the written
-octets satisfy an independently coded canonical-shortest-form predicate; float writers round-trip every
-grid value i + f/128^p; latitude / longitude / info-time go through the real `as_xml`.
+model (Model/Mbxml.lean, Model/MbxmlX.lean) through drv_c14.  Oracle (property as stated, on the real code only):
+read(write(v)) returns v and consumes exactly the written octets with arbitrary octets before and after; the written
+octets satisfy an independently coded canonical-shortest-form predicate and equal an independent encoder's; float
+writers round-trip every grid value i + f/128^p; latitude / longitude / info-time go through the real `as_xml`
+(all three lat/long views), on a dense 1e-6 grid on both sides of every constant of the writers and on doubles off
+the grid (rounding ties, midpoints, the edges of the pole window).
+
+Ambient process configuration (hardening round): the date-time part of the oracle and a sample of every other codec
+are repeated with the process switched — inside this process, os.environ + time.tzset / locale.setlocale /
+decimal.setcontext, restored afterwards — to other time zones (POSIX TZ strings, no tzdata needed; the skipped and
+repeated local hours are computed from the rule by the harness and confirmed by the Lean calendar and by libc),
+locales (incl. a decimal-comma locale compiled with localedef) and decimal contexts.  The expected values come from
+the digits themselves and from the Lean model: neither reads any ambient state.
 """
+import ast
+import contextlib
 import datetime
+import decimal
+import inspect
 import json
+import locale
 import logging
 import math
+import os
 import re
-from decimal import Decimal
+import textwrap
+import time
+from fractions import Fraction
 
-from common import impl_error
+from common import impl_error, Infra
 
 PROP = "C14"
 MODULES = ["C14"]
@@ -105,6 +122,30 @@ def fstr(x, nxt) -> str:
         return x
     neg, n, e = dyadic(x)
     return f"{'-' if neg else ''}{n}/{e} {nxt}"
+
+
+# ---------------------------------------------------------------- independent encoders (the expected octets)
+def enc_u(v: int) -> bytes:
+    out = [v & 0x7F]
+    v >>= 7
+    while v:
+        out.append(0x80 | (v & 0x7F))
+        v >>= 7
+    return bytes(reversed(out))
+
+
+def enc_s(m: int, neg: bool) -> bytes:
+    n = max(1, (m.bit_length() + 1 + 6) // 7)
+    se = [(m >> (7 * k)) & 0x7F for k in range(n - 1, -1, -1)]
+    se[0] |= 0x40 if neg else 0
+    return bytes([x | 0x80 for x in se[:-1]] + se[-1:])
+
+
+def enc_frac(f: int, p: int) -> bytes:
+    k = frac_len(f, p)
+    f >>= 7 * (p - k)
+    se = [(f >> (7 * j)) & 0x7F for j in range(k - 1, -1, -1)]
+    return bytes([x | 0x80 for x in se[:-1]] + se[-1:])
 
 
 # ---------------------------------------------------------------- generators
@@ -378,11 +419,11 @@ def run_floats(ctx, M):
                         value != 0 and math.copysign(1, r[0]) != math.copysign(1, value)):
                     ctx.fail("float-roundtrip", inp, f"read_{name}(write_{name}({value!r}, {p})) returned {r}",
                              expected=[value, len(w)], actual=r if isinstance(r, str) else list(r))
-                ilen = len(call(M.write_sintvar, sgn * i, value < 0)) if signed else len(call(M.write_uintvar, i))
-                if len(w) != ilen + frac_len(f, p):
+                want = (enc_s(i, sgn < 0 and (i, f) != (0, 0)) if signed else enc_u(i)) + enc_frac(f, p)
+                if w != want:
                     ctx.fail("float-not-canonical", inp,
-                             f"write_{name}({value!r}, {p}) = {w.hex()}: fraction is not {frac_len(f, p)} septet(s)",
-                             expected=ilen + frac_len(f, p), actual=len(w))
+                             f"write_{name}({value!r}, {p}) = {w.hex()}: not the shortest integer septets followed by the "
+                             f"{frac_len(f, p)} fraction septet(s) {want.hex()}", expected=want.hex(), actual=w.hex())
         # arbitrary doubles (not on the grid): the writers' exact arithmetic, correspondence only
         for _ in range(ctx.budget(1500, 60000)):
             k = ctx.rng.randrange(-12, 34 if not signed else 33)
@@ -413,6 +454,13 @@ def run_floats(ctx, M):
 
 
 # ---------------------------------------------------------------- XML view (real as_xml)
+VIEWS = {
+    "point-2d": lambda a, b: (a, b),
+    "circle-2d": lambda a, b: (a, b, 1.5),
+    "point-3d": lambda a, b: (a, b, 1.5),
+}
+
+
 def xml_of(token_name, value):
     from okdmr.dmrlib.motorola.lrrp import LRRP
     from okdmr.dmrlib.motorola.mbxml import MBXMLDocumentIdentifier
@@ -422,8 +470,8 @@ def xml_of(token_name, value):
     return doc.as_xml()
 
 
-def xml_latlon(lat: bytes, lon: bytes):
-    x = call(xml_of, "point-2d", (lat, lon))
+def xml_latlon(lat: bytes, lon: bytes, view: str = "point-2d"):
+    x = call(xml_of, view, VIEWS[view](lat, lon))
     if x.startswith("ERR "):
         return x, x
     a = re.search(r"<lat>([^<]*)</lat>", x)
@@ -431,52 +479,143 @@ def xml_latlon(lat: bytes, lon: bytes):
     return (a.group(1) if a else "ERR nolat"), (b.group(1) if b else "ERR nolong")
 
 
+def xml_infotime(b: bytes, token="info-time"):
+    x = call(xml_of, token, b)
+    mm = re.search(r"<info-time>([^<]*)</info-time>", x)
+    return mm.group(1) if mm else x
+
+
 def micro(text: str) -> str:
+    """the shown decimal text in micro-degrees (exact rational arithmetic: no ambient decimal context)"""
     if text.startswith("ERR"):
         return text
-    d = Decimal(text) * 1000000
-    return str(int(d)) if d == int(d) else f"NOT-6-DECIMALS {text}"
+    try:
+        d = Fraction(text) * 1000000
+    except (ValueError, ZeroDivisionError):
+        return f"NOT-A-NUMBER {text}"
+    return str(int(d)) if d.denominator == 1 else f"NOT-6-DECIMALS {text}"
+
+
+def micro_round(x: float) -> int:
+    """x in micro-degrees, correctly rounded (ties to even) from the exact binary value of the double"""
+    fr = Fraction(x) * 1000000
+    fl = fr.numerator // fr.denominator
+    rem = fr - fl
+    if rem > Fraction(1, 2) or (rem == Fraction(1, 2) and fl % 2 == 1):
+        fl += 1
+    return fl
+
+
+def source_numbers(*fns):
+    """absolute values of the numeric literals in the source of the given functions, as they are on this run:
+    every one of them is treated as a potential special-cased constant / tolerance of the writers"""
+    out = set()
+    for fn in fns:
+        try:
+            tree = ast.parse(textwrap.dedent(inspect.getsource(fn)))
+        except Exception:  # noqa
+            continue
+        for node in ast.walk(tree):
+            if isinstance(node, ast.Constant) and type(node.value) in (int, float):
+                v = abs(float(node.value))
+                if math.isfinite(v):
+                    out.add(v)
+    return out
+
+
+def ulps(x: float, n: int) -> float:
+    for _ in range(abs(n)):
+        x = math.nextafter(x, math.inf if n > 0 else -math.inf)
+    return x
+
+
+def latlon_plan(ctx, M):
+    nums = source_numbers(M.write_latitude, M.write_longitude)
+    plan = {
+        "lat": dict(top=90000000, incl=True, prim=[0, 90000000], sec=[45000000], wfn=M.write_latitude, name="latitude"),
+        "lon": dict(top=360000000, incl=False, prim=[0, 180000000, 360000000], sec=[90000000, 270000000],
+                    wfn=M.write_longitude, name="longitude"),
+    }
+    for P in plan.values():
+        for c in sorted(nums):  # literals of the writers read as degrees
+            m = round(c * 1e6)
+            if 0 < m < P["top"] and m not in P["prim"] and m not in P["sec"]:
+                P["sec"].append(m)
+        P["tol"] = sorted(t for t in nums if 0 < t < 0.01)  # literals that look like a tolerance
+    return plan
+
+
+def near(m, consts, w):
+    return any(abs(m - c) <= w for c in consts)
 
 
 def run_latlon(ctx, M):
-    lat_ms = [12345345, 90000000, 0, 1, 89999999, 45000000, 351562, 351563]
-    lon_ms = [24668866, 0, 1, 359999999, 180000000, 179999999, 703125]
-    for j in range(0, 513):
-        for d in (-1, 0, 1):
-            x = j * 703125 + d
-            if 0 <= x <= 90000000:
-                lat_ms.append(x)
-            if 0 <= x < 360000000:
-                lon_ms.append(x)
-    for _ in range(ctx.budget(1500, 120000)):
-        lat_ms.append(ctx.rng.randrange(0, 90000001))
-        lon_ms.append(ctx.rng.randrange(0, 360000000))
-    wl, dl = [], []
+    plan = latlon_plan(ctx, M)
+    wp = 100000 if ctx.thorough() else 2500
+    ws = 5000 if ctx.thorough() else 300
+    wl, dl, fl = [], [], []
     zero4 = bytes(4)
-    for which, ms, wfn in (("lat", lat_ms, M.write_latitude), ("lon", lon_ms, M.write_longitude)):
-        for m in ms:
+    for which, P in plan.items():
+        top, wfn = P["top"], P["wfn"]
+        ms = [12345345, 90000000, 0, 1, 89999999, 45000000, 351562, 351563] if which == "lat" else [
+            24668866, 0, 1, 359999999, 180000000, 179999999, 703125]
+        # dense 1e-6 grid next to every special-cased constant of the writers (both sides, not only the constant)
+        for c in P["prim"]:
+            ms += range(c - wp, c + wp + 1)
+        for c in P["sec"]:
+            ms += range(c - ws, c + ws + 1)
+        ctx.count(f"{which}:near-constant(dense ±{wp} / ±{ws} micro-degrees)", (2 * wp + 1) * len(P["prim"]) + (2 * ws + 1) * len(P["sec"]))
+        # the edges of every window a tolerance literal could open around a constant (relative and absolute reading)
+        for t in P["tol"]:
+            for c in P["prim"] + P["sec"]:
+                for width in {round(t * c), round(t * 1e6), round(t * top), round(t * 90e6)}:
+                    for side in (-1, 1):
+                        ms += range(c + side * width - 3, c + side * width + 4)
+            ctx.count(f"{which}:tolerance-literal-edges")
+        for j in range(0, 513):
+            for d in (-1, 0, 1):
+                ms.append(j * 703125 + d)
+        for k in range(0, 32):  # powers of two of the raw value and of micro-degrees
+            ms += [2**k - 1, 2**k, 2**k + 1, (2**k * 703125) // (2**24 if which == "lat" else 2**23)]
+        for _ in range(ctx.budget(1500, 120000)):
+            ms.append(ctx.rng.randrange(0, top + 1 if P["incl"] else top))
+        # outside the domain (correspondence only): negative / too large values must raise (model: OverflowError) or
+        # follow the same formula, never be special-cased
+        ms += list(range(-60, 0)) + list(range(top + 1, top + 301))
+        ms += [-1000000, -90000000, 180000000, 200000000] if which == "lat" else [-180000000, 400000000]
+        consts = P["prim"] + P["sec"]
+        for n, m in enumerate(dict.fromkeys(ms)):
             x = m / 1e6
             b = call(wfn, x)
             wl.append((f"{which}.write {m}", hx(b)))
+            if not (0 <= m <= top if P["incl"] else 0 <= m < top):
+                ctx.case((which, "out", m))
+                ctx.count(f"{which}:outside-domain")
+                continue
             ctx.case((which, m), nontrivial=m != 0,
-                     sample={"op": f"write_{'latitude' if which == 'lat' else 'longitude'} + as_xml", "degrees": x, "octets": hx(b)}
+                     sample={"op": f"write_{P['name']} + as_xml", "degrees": x, "octets": hx(b)}
                      if m in (12345345, 24668866) else None)
             ctx.count(f"{which}:values")
             inp = {"op": which, "microdegrees": m}
             if isinstance(b, str):
                 ctx.fail("latlon-write-raises", inp, f"write_{which}({x!r}) raised {b}")
                 continue
-            la, lo = xml_latlon(b, zero4) if which == "lat" else xml_latlon(zero4, b)
-            text = la if which == "lat" else lo
-            dl.append((f"{which}.decode {b.hex()}", micro(text)))
-            ok = (not text.startswith("ERR")) and float(text) == x and text == str(x)
-            if not ok:
-                ctx.fail("latlon-roundtrip", inp, f"XML view of write_{which}({x!r}) shows {text}", expected=str(x), actual=text)
-        # outside the domain: negative / too large values must raise (model: OverflowError), never wrap
-        for m in ((-1, -1000000, -90000000, 180000000, 200000000) if which == "lat" else (-1, -180000000, 360000000, 400000000)):
-            b = call(wfn, m / 1e6)
-            wl.append((f"{which}.write {m}", hx(b)))
-            ctx.case((which, "out", m))
+            if not (which == "lat" and m == top):
+                fl.append((f"{which}.fl {m}", str(int.from_bytes(b, "big"))))
+            views = ["point-2d"]
+            if n % 17 == 0 or near(m, consts, 40):
+                views += ["circle-2d", "point-3d"]
+                ctx.count(f"{which}:all-three-xml-views")
+            for view in views:
+                la, lo = xml_latlon(b, zero4, view) if which == "lat" else xml_latlon(zero4, b, view)
+                text = la if which == "lat" else lo
+                if view == "point-2d":
+                    dl.append((f"{which}.decode {b.hex()}", micro(text)))
+                ok = (not text.startswith("ERR")) and text == str(x) and float(text) == x
+                if not ok:
+                    ctx.fail("latlon-roundtrip", dict(inp, view=view),
+                             f"XML view ({view}) of write_{which}({x!r}) shows {text}", expected=str(x), actual=text)
+    run_latlon_offgrid(ctx, M, plan, wl)
     # the decoding formulas on arbitrary octets (ties the model's rounding to Python's round(x, 6))
     for _ in range(ctx.budget(600, 40000)):
         a = ctx.rng.randrange(2**32).to_bytes(4, "big")
@@ -492,12 +631,585 @@ def run_latlon(ctx, M):
     if not ctx.search_only and ctx.driver_ok:
         ctx.correspond("write_latitude/longitude", wl)
         ctx.correspond("as_xml lat/long", dl)
+        ctx.correspond("int(round(v, 6) * 2**k / deg) in double arithmetic (model fl53) = code", fl)
+
+
+def offgrid_values(ctx, which, P):
+    """doubles that are NOT multiples of 1e-6: exact rounding ties (odd multiples of 1/128), the doubles at and next to
+    every midpoint (k + 0.5) micro-degrees near the constants and at random, the edges of the pole window, random"""
+    top = P["top"] / 1e6
+    consts = P["prim"] + P["sec"]
+    xs = []
+    jmax = int(top * 128)
+    odd = [j for j in range(1, jmax, 2)]
+    ties = set(odd[:40] + odd[-40:])
+    for c in consts:
+        j0 = int(c / 1e6 * 128) | 1
+        ties |= {j for j in range(j0 - 40, j0 + 41, 2) if 0 < j < jmax}
+    if ctx.thorough():
+        ties |= set(odd)
+    else:
+        ties |= {odd[ctx.rng.randrange(len(odd))] for _ in range(ctx.budget(500, 0))}
+    for j in sorted(ties):
+        for n in (0, -1, 1):
+            xs.append(("tie", ulps(j / 128, n)))
+    ks = set()
+    for c in consts:
+        ks |= {k for k in range(c - 40, c + 41) if 0 <= k < P["top"]}
+    ks |= {ctx.rng.randrange(0, P["top"]) for _ in range(ctx.budget(400, 40000))}
+    for k in sorted(ks):
+        x0 = (k + 0.5) / 1e6
+        for n in (-2, -1, 0, 1, 2):
+            xs.append(("midpoint", ulps(x0, n)))
+    if which == "lat":
+        for e in (90.0 - 9e-8, 90.0 - 5e-7, 90.0 - 1e-9 * 90.0, 90.0):
+            x = ulps(e, 40)
+            for _ in range(81):
+                if x <= 90.0:
+                    xs.append(("pole-window-edge", x))
+                x = math.nextafter(x, 0.0)
+    for t in P["tol"]:
+        for c in consts:
+            for width in (t * c / 1e6, t, t * top, t * 90):
+                for side in (-1, 1):
+                    x = c / 1e6 + side * width
+                    for n in (-1, 0, 1):
+                        xs.append(("tolerance-literal-edge", ulps(x, n)))
+    for _ in range(ctx.budget(400, 40000)):
+        xs.append(("random", ctx.rng.random() * top))
+    for x in (-0.0, -1e-7, -4.9e-7, 5e-324, 1e-7, 4.9e-7, 5.1e-7):
+        xs.append(("tiny", x))
+    return xs
+
+
+def run_latlon_offgrid(ctx, M, plan, wl):
+    zero4 = bytes(4)
+    for which, P in plan.items():
+        seen = set()
+        for cls, x in offgrid_values(ctx, which, P):
+            if x in seen and x != 0:
+                continue
+            seen.add(x)
+            m = micro_round(x)
+            b = call(P["wfn"], x)
+            if x >= 0 and math.copysign(1, x) > 0:
+                neg, num, exp = dyadic(x)
+                wl.append((f"{which}.writed {num} {exp}", hx(b)))
+                if which == "lat":  # the model's double-arithmetic isclose is the premise of pole_window_inside_rounding_cell
+                    wl.append((f"lat.isclose {num} {exp}", "1" if math.isclose(x, 90.0) else "0"))
+            ctx.case((which, "double", x))
+            ctx.count(f"{which}:off-grid:{cls}")
+            if not (0 <= m <= P["top"] if P["incl"] else 0 <= m < P["top"]):
+                continue
+            inp = {"op": which + "d", "value": x.hex()}
+            if isinstance(b, str):
+                ctx.fail("latlon-write-raises", inp, f"write_{which}({x!r}) raised {b}")
+                continue
+            la, lo = xml_latlon(b, zero4) if which == "lat" else xml_latlon(zero4, b)
+            text = la if which == "lat" else lo
+            want = str(m / 1e6)
+            if text != want:
+                ctx.fail("latlon-rounding", inp,
+                         f"XML view of write_{which}({x!r}) shows {text}, not the value rounded to six decimals",
+                         expected=want, actual=text)
+
+
+# ---------------------------------------------------------------- calendar arithmetic of the harness (no datetime, no zone)
+def leap(y):
+    return (y % 4 == 0 and y % 100 != 0) or y % 400 == 0
 
 
 def dim(y, m):
     if m == 2:
-        return 29 if (y % 4 == 0 and y % 100 != 0) or y % 400 == 0 else 28
+        return 29 if leap(y) else 28
     return 30 if m in (4, 6, 9, 11) else 31
+
+
+def days_from_civil(y, m, d):
+    """days since 1970-01-01 of the proleptic Gregorian date"""
+    y -= m <= 2
+    era = y // 400
+    yoe = y - era * 400
+    doy = (153 * (m + (-3 if m > 2 else 9)) + 2) // 5 + d - 1
+    doe = yoe * 365 + yoe // 4 - yoe // 100 + doy
+    return era * 146097 + doe - 719468
+
+
+def civil_from_days(z):
+    z += 719468
+    era = z // 146097
+    doe = z - era * 146097
+    yoe = (doe - doe // 1460 + doe // 36524 - doe // 146096) // 365
+    y = yoe + era * 400
+    doy = doe - (365 * yoe + yoe // 4 - yoe // 100)
+    mp = (5 * doy + 2) // 153
+    d = doy - (153 * mp + 2) // 5 + 1
+    m = mp + (3 if mp < 10 else -9)
+    return (y + (m <= 2), m, d)
+
+
+def fields(s):
+    return (int(s[0:4]), int(s[4:6]), int(s[6:8]), int(s[8:10]), int(s[10:12]), int(s[12:14]))
+
+
+def wall(t):
+    """wall-clock second count -> 14 digits"""
+    d, r = divmod(t, 86400)
+    y, m, dd = civil_from_days(d)
+    return f"{y:04}{m:02}{dd:02}{r // 3600:02}{r % 3600 // 60:02}{r % 60:02}"
+
+
+def secs(s):
+    y, mo, d, h, mi, se = fields(s)
+    return days_from_civil(y, mo, d) * 86400 + h * 3600 + mi * 60 + se
+
+
+def in_range(t):
+    return secs("20000101000000") <= t <= secs("20991231235959")
+
+
+# POSIX TZ strings (no tzdata needed): std offset [dst [offset] , start[/time] , end[/time]]
+def _tz_name(s, i):
+    if s[i] == "<":
+        return s.index(">", i) + 1
+    while i < len(s) and s[i].isalpha():
+        i += 1
+    return i
+
+
+def _tz_hms(s, i):
+    sign = 1
+    if i < len(s) and s[i] in "+-":
+        sign = -1 if s[i] == "-" else 1
+        i += 1
+    j = i
+    while j < len(s) and (s[j].isdigit() or s[j] == ":"):
+        j += 1
+    parts = [int(p) for p in s[i:j].split(":")]
+    parts += [0] * (3 - len(parts))
+    return sign * (parts[0] * 3600 + parts[1] * 60 + parts[2]), j
+
+
+def parse_posix_tz(s):
+    """{'std': seconds east, 'dst': seconds east | None, 'start': rule, 'end': rule}; rule = (kind, a, b, c, time)"""
+    i = _tz_name(s, 0)
+    off, i = _tz_hms(s, i)
+    z = {"std": -off, "dst": None}
+    if i >= len(s):
+        return z
+    i = _tz_name(s, i)
+    if i < len(s) and s[i] != ",":
+        off, i = _tz_hms(s, i)
+        z["dst"] = -off
+    else:
+        z["dst"] = z["std"] + 3600
+    rules = s[i + 1:].split(",")
+    for key, r in zip(("start", "end"), rules):
+        date, _, tm = r.partition("/")
+        t = _tz_hms(tm, 0)[0] if tm else 7200
+        if date[0] == "M":
+            a, b, c = (int(q) for q in date[1:].split("."))
+            z[key] = ("M", a, b, c, t)
+        elif date[0] == "J":
+            z[key] = ("J", int(date[1:]), 0, 0, t)
+        else:
+            z[key] = ("D", int(date), 0, 0, t)
+    return z
+
+
+def rule_day(y, m, w, d):
+    """day of the month of week w (5 = last) of weekday d (0 = Sunday) in month m"""
+    dow1 = (days_from_civil(y, m, 1) + 4) % 7  # 1970-01-01 was a Thursday
+    day = 1 + (d - dow1) % 7 + 7 * (w - 1)
+    while day > dim(y, m):
+        day -= 7
+    return day
+
+
+def rule_wall(rule, y):
+    """wall-clock seconds of the transition of year y, on the clock in force before it"""
+    kind, a, b, c, t = rule
+    if kind == "M":
+        base = days_from_civil(y, a, rule_day(y, a, b, c))
+    elif kind == "J":  # 1..365, 29 February never counted
+        base = days_from_civil(y, 1, 1) + a - 1 + (1 if leap(y) and a >= 60 else 0)
+    else:  # 0..365, leap day counted
+        base = days_from_civil(y, 1, 1) + a
+    return base * 86400 + t
+
+
+def transitions(z, y):
+    """[('gap' | 'fold', lo, hi)]: wall-clock seconds lo <= t < hi that are skipped / occur twice in year y"""
+    if z.get("dst") is None:
+        return []
+    save = z["dst"] - z["std"]
+    out = []
+    for rule, jump in ((z["start"], save), (z["end"], -save)):
+        w = rule_wall(rule, y)
+        out.append(("gap", w, w + jump) if jump > 0 else ("fold", w + jump, w))
+    return out
+
+
+# every ambient setting the process may run under is given to the library through these three switches
+POSIX_ZONES = [
+    "UTC0",
+    "CET-1CEST,M3.5.0,M10.5.0/3",  # northern hemisphere, EU rule (skips 02:00-02:59 on the last Sunday of March)
+    "EST5EDT,M3.2.0,M11.1.0",  # northern, US rule
+    "GMT0BST,M3.5.0/1,M10.5.0",  # skips 01:00-01:59
+    "EET-2EEST,M3.5.0/3,M10.5.0/4",
+    "AEST-10AEDT,M10.1.0,M4.1.0/3",  # southern hemisphere: DST over the new year
+    "NZST-12NZDT,M9.5.0,M4.1.0/3",  # southern, +12 / +13
+    "LHST-10:30LHDT-11,M10.1.0,M4.1.0",  # half-hour DST shift
+    "IST-5:30",  # half-hour offset, no DST
+    "NPT-5:45",  # 45-minute offset
+    "NST3:30NDT,M3.2.0,M11.1.0",  # half-hour offset west, with DST
+    "<+1245>-12:45<+1345>,M9.5.0/2:45,M4.1.0/3:45",  # 45-minute offset, transitions at odd minutes
+    "<+14>-14",  # far east
+    "<+12>-12",
+    "<-12>12",  # far west
+    "<-11>11",
+    "CST5CDT,M3.2.0/0,M11.1.0/1",  # the skipped hour starts at midnight
+    "<-04>4<-03>,M9.1.6/24,M4.1.6/24",  # transition at 24:00 (the next day 00:00)
+    "IST-1GMT0,M10.5.0,M3.5.0/1",  # negative DST (winter time is the 'daylight' zone)
+    "<+0330>-3:30<+0430>,J79/24,J263/24",  # Julian-day rules
+    "WET0WEST,59/2,300/2",  # zero-based day-of-year rules (leap day counted)
+]
+# named zones (used only when the tz database is installed): wall-clock times that never existed / existed twice
+NAMED_ZONES = {
+    "Europe/Prague": [],
+    "Pacific/Apia": ["20111230000000", "20111230120000", "20111230235959", "20111229235959", "20111231000000"],
+    "America/Caracas": ["20071209023000", "20071209025959", "20160501023000", "20160501025959", "20160501030000"],
+    "Asia/Pyongyang": ["20150814233000", "20150815000000", "20180504233000", "20180504235959", "20180505000000"],
+    "Europe/Moscow": ["20110327020000", "20110327023000", "20141026010000", "20141026013000"],
+    "Australia/Lord_Howe": ["20211003020000", "20211003021500", "20210404013000", "20210404014500"],
+    "America/St_Johns": ["20070311000100", "20070311003000", "20061029000100"],
+    "Africa/Casablanca": ["20190505020000", "20190505023000", "20190609020000", "20220327020000"],
+}
+LOCALE_CANDIDATES = ["C", "POSIX", "C.UTF-8", "C.utf8", "en_US.UTF-8", "en_GB.UTF-8", "de_DE.UTF-8", "fr_FR.UTF-8",
+                     "cs_CZ.UTF-8", "tr_TR.UTF-8", "ar_SA.UTF-8", "fa_IR.UTF-8", "hi_IN.UTF-8", "ja_JP.UTF-8"]
+DECIMAL_CONTEXTS = {
+    "prec=1,ROUND_UP": dict(prec=1, rounding=decimal.ROUND_UP),
+    "prec=3,ROUND_FLOOR,traps=Inexact+Rounded": dict(prec=3, rounding=decimal.ROUND_FLOOR,
+                                                     traps=[decimal.Inexact, decimal.Rounded]),
+    "prec=60,ROUND_HALF_DOWN,Emax=9": dict(prec=60, rounding=decimal.ROUND_HALF_DOWN, Emax=9, Emin=-9),
+}
+_ENV_KEYS = ("TZ", "LC_ALL", "LANG", "LC_TIME", "LC_NUMERIC", "LOCPATH")
+
+# A locale with a decimal comma, a thousands separator and non-English day / month / am-pm names, compiled on the spot
+# with localedef (from this text and a 128-character charmap: no locale sources need to be installed).  It stands for
+# the many national locales a dispatcher PC may run under; skipped (and counted) when localedef is not available.
+CUSTOM_LOCALE = "cs_CZ"
+_custom_locale_dir = []
+
+
+def _locale_source():
+    up = [f"<U{c:04X}>" for c in range(0x41, 0x5B)]
+    lo = [f"<U{c:04X}>" for c in range(0x61, 0x7B)]
+    dg = [f"<U{c:04X}>" for c in range(0x30, 0x3A)]
+    cats = "\n".join(f'category "i18n:2012";{c}' for c in (
+        "LC_IDENTIFICATION", "LC_CTYPE", "LC_COLLATE", "LC_TIME", "LC_NUMERIC", "LC_MONETARY", "LC_MESSAGES", "LC_PAPER",
+        "LC_NAME", "LC_ADDRESS", "LC_TELEPHONE", "LC_MEASUREMENT"))
+    ident = "\n".join(f'{k} ""' for k in ("source", "address", "contact", "email", "tel", "fax", "language", "territory"))
+    return f"""comment_char %
+escape_char /
+LC_IDENTIFICATION
+title "verification locale: decimal comma, non-English names"
+{ident}
+revision "1.0"
+date "2026-01-01"
+{cats}
+END LC_IDENTIFICATION
+LC_CTYPE
+upper {";".join(up)}
+lower {";".join(lo)}
+digit {";".join(dg)}
+space <U0020>;<U0009>;<U000A>;<U000B>;<U000C>;<U000D>
+blank <U0020>;<U0009>
+xdigit {";".join(dg + up[:6] + lo[:6])}
+toupper {";".join(f"({a},{b})" for a, b in zip(lo, up))}
+tolower {";".join(f"({a},{b})" for a, b in zip(up, lo))}
+END LC_CTYPE
+LC_COLLATE
+order_start forward
+UNDEFINED
+order_end
+END LC_COLLATE
+LC_MONETARY
+int_curr_symbol "CZK "
+currency_symbol "Kc"
+mon_decimal_point ","
+mon_thousands_sep "."
+mon_grouping 3;3
+positive_sign ""
+negative_sign "-"
+int_frac_digits 2
+frac_digits 2
+p_cs_precedes 0
+p_sep_by_space 1
+n_cs_precedes 0
+n_sep_by_space 1
+p_sign_posn 1
+n_sign_posn 1
+END LC_MONETARY
+LC_NUMERIC
+decimal_point ","
+thousands_sep "."
+grouping 3;3
+END LC_NUMERIC
+LC_TIME
+abday "ne";"po";"ut";"st";"ct";"pa";"so"
+day "nedele";"pondeli";"utery";"streda";"ctvrtek";"patek";"sobota"
+abmon "led";"uno";"bre";"dub";"kve";"cvn";"cvc";"srp";"zar";"rij";"lis";"pro"
+mon "leden";"unor";"brezen";"duben";"kveten";"cerven";"cervenec";"srpen";"zari";"rijen";"listopad";"prosinec"
+d_t_fmt "%a %e. %B %Y, %H:%M:%S"
+d_fmt "%d.%m.%Y"
+t_fmt "%H:%M:%S"
+am_pm "dop";"odp"
+t_fmt_ampm "%I:%M:%S %p"
+week 7;19971130;4
+first_weekday 2
+END LC_TIME
+LC_MESSAGES
+yesexpr "^[+1aAyY]"
+noexpr "^[-0nN]"
+END LC_MESSAGES
+LC_PAPER
+height 297
+width 210
+END LC_PAPER
+LC_NAME
+name_fmt "%d%t%g%t%m%t%f"
+END LC_NAME
+LC_ADDRESS
+postal_fmt "%f%N%a%N%d%N%b%N%s %h %e %r%N%z %T%N%c%N"
+END LC_ADDRESS
+LC_TELEPHONE
+tel_int_fmt "+%c %a %l"
+END LC_TELEPHONE
+LC_MEASUREMENT
+measurement 1
+END LC_MEASUREMENT
+"""
+
+
+def custom_locale_dir():
+    """directory for LOCPATH holding the compiled CUSTOM_LOCALE, or None when it cannot be built here"""
+    if _custom_locale_dir:
+        return _custom_locale_dir[0]
+    import hashlib
+    import shutil
+    import subprocess
+    import tempfile
+
+    path = None
+    try:
+        exe = shutil.which("localedef")
+        if exe:
+            src = _locale_source()
+            cm = "<code_set_name> ANSI_X3.4-1968\n<comment_char> %\n<escape_char> /\n<mb_cur_min> 1\n<mb_cur_max> 1\nCHARMAP\n"
+            cm += "".join(f"<U{i:04X}> /x{i:02x} CHAR{i}\n" for i in range(128)) + "END CHARMAP\n"
+            tag = hashlib.sha256((src + cm).encode()).hexdigest()[:12]
+            base = os.path.join(tempfile.gettempdir(), f"verif-c14-locale-{tag}-{os.getuid()}")
+            if not os.path.exists(os.path.join(base, CUSTOM_LOCALE, "LC_NUMERIC")):
+                tmp = tempfile.mkdtemp(prefix="verif-c14-locale-")
+                with open(os.path.join(tmp, "src"), "w") as fh:
+                    fh.write(src)
+                with open(os.path.join(tmp, "cm"), "w") as fh:
+                    fh.write(cm)
+                subprocess.run([exe, "--no-archive", "-c", "--no-warnings=intcurrsym", "-f", os.path.join(tmp, "cm"),
+                                "-i", os.path.join(tmp, "src"), os.path.join(tmp, CUSTOM_LOCALE)],
+                               capture_output=True, timeout=60, env={"PATH": os.environ.get("PATH", "")})
+                if os.path.exists(os.path.join(tmp, CUSTOM_LOCALE, "LC_NUMERIC")):
+                    try:
+                        os.rename(tmp, base)
+                    except OSError:  # somebody else was faster: use theirs, or ours if that failed
+                        if not os.path.exists(os.path.join(base, CUSTOM_LOCALE, "LC_NUMERIC")):
+                            base = tmp
+                else:
+                    base = None
+            path = base
+    except Exception:  # noqa
+        path = None
+    if path is not None:  # does the C library accept it?
+        env = {k: os.environ.get(k) for k in _ENV_KEYS}
+        loc = locale.setlocale(locale.LC_ALL)
+        try:
+            os.environ["LOCPATH"] = path
+            locale.setlocale(locale.LC_ALL, CUSTOM_LOCALE)
+            if locale.localeconv()["decimal_point"] != ",":
+                path = None
+        except locale.Error:
+            path = None
+        finally:
+            for k, v in env.items():
+                if v is None:
+                    os.environ.pop(k, None)
+                else:
+                    os.environ[k] = v
+            locale.setlocale(locale.LC_ALL, loc)
+    _custom_locale_dir.append(path)
+    return path
+
+
+@contextlib.contextmanager
+def ambient(cfg):
+    """switch the process' time zone (TZ + tzset), locale (LC_ALL + setlocale) and decimal context inside this
+    process, and put everything back afterwards, whatever happens"""
+    cfg = cfg or {}
+    env = {k: os.environ.get(k) for k in _ENV_KEYS}
+    loc = locale.setlocale(locale.LC_ALL)
+    dctx = decimal.getcontext()
+    try:
+        if cfg.get("tz") is not None:
+            os.environ["TZ"] = cfg["tz"]
+            time.tzset()
+        if cfg.get("locale") is not None:
+            if cfg.get("custom_locale"):
+                os.environ["LOCPATH"] = custom_locale_dir() or ""
+            os.environ["LC_ALL"] = cfg["locale"]
+            os.environ["LANG"] = cfg["locale"]
+            locale.setlocale(locale.LC_ALL, cfg["locale"])
+        if cfg.get("decimal") is not None:
+            decimal.setcontext(decimal.Context(**DECIMAL_CONTEXTS[cfg["decimal"]]))
+        yield
+    finally:
+        for k, v in env.items():
+            if v is None:
+                os.environ.pop(k, None)
+            else:
+                os.environ[k] = v
+        time.tzset()
+        try:
+            locale.setlocale(locale.LC_ALL, loc)
+        except locale.Error:  # pragma: no cover
+            locale.setlocale(locale.LC_ALL, "C")
+        decimal.setcontext(dctx)
+
+
+def available_locales():
+    out = []
+    loc = locale.setlocale(locale.LC_ALL)
+    for name in LOCALE_CANDIDATES:
+        try:
+            locale.setlocale(locale.LC_ALL, name)
+            out.append(name)
+        except locale.Error:
+            pass
+    locale.setlocale(locale.LC_ALL, loc)
+    return out
+
+
+def amb_text(cfg):
+    return ", ".join(f"{k}={v}" for k, v in (cfg or {}).items() if v is not None and k != "custom_locale") or "process default"
+
+
+# ---------------------------------------------------------------- info-time
+class _SubDatetime(datetime.datetime):
+    pass
+
+
+_AWARE = {
+    "aware-utc": datetime.timezone.utc,
+    "aware+0530": datetime.timezone(datetime.timedelta(hours=5, minutes=30)),
+    "aware-1200": datetime.timezone(datetime.timedelta(hours=-12)),
+    "aware+1400": datetime.timezone(datetime.timedelta(hours=14)),
+}
+NAIVE_FORMS = ("str", "int", "datetime", "datetime-fold1")
+OTHER_FORMS = ("datetime-subclass", "datetime-microsecond") + tuple(_AWARE)
+_OLD_FORMS = {0: "str", 1: "int", 2: "datetime"}
+
+
+def it_arg(s, form):
+    """the argument of write_infotime for the 14 digits s (built from the digits: no strptime, no zone)"""
+    form = _OLD_FORMS.get(form, form)
+    if form == "str":
+        return s
+    if form == "int":
+        return int(s)
+    f = fields(s)
+    if form == "datetime":
+        return datetime.datetime(*f)
+    if form == "datetime-fold1":
+        return datetime.datetime(*f, fold=1)
+    if form == "datetime-subclass":
+        return _SubDatetime(*f)
+    if form == "datetime-microsecond":
+        return datetime.datetime(*f, 999999)
+    return datetime.datetime(*f, tzinfo=_AWARE[form])
+
+
+def it_check(ctx, M, s, form, cfg, wl, dl, n=0):
+    """write_infotime(s given as `form`) through the real XML view under the ambient setting that is active"""
+    arg = it_arg(s, form)
+    b = call(M.write_infotime, arg)
+    wl[(f"it.write {s}", hx(b))] = None
+    inp = {"op": "infotime", "value": s, "form": form}
+    if cfg:
+        inp["ambient"] = cfg
+    where = f" [{amb_text(cfg)}]" if cfg else ""
+    if isinstance(b, str):
+        ctx.fail("infotime-write-raises", inp, f"write_infotime({arg!r}) raised {b}{where}")
+        return
+    text = xml_infotime(b, "info-time" if n % 8 else 0x35)
+    dl[(f"it.decode {b.hex()}", text.replace(" ", "_"))] = None
+    if text != s or len(b) != 5:
+        ctx.fail("infotime-roundtrip", inp, f"XML view of write_infotime({arg!r}) shows {text!r}{where}", expected=s, actual=text)
+
+
+def generic_instants(ctx):
+    """date-times every ambient setting is tried on: first / last second of the range, year / month / day ends,
+    leap days, the 32-bit time_t limit, round epoch numbers, the historical test vector"""
+    out = ["20030630073000", "20000101000000", "20991231235959", "20000101000001", "20991231235958",
+           "20380119031407", "20380119031408", "20010909014640", "20330518033320", "20210328023000"]
+    for y in (2000, 2001, 2004, 2021, 2024, 2037, 2038, 2039, 2096, 2099):
+        for mo in (1, 2, 3, 6, 10, 12):
+            last = f"{y:04}{mo:02}{dim(y, mo):02}"
+            out += [last + "235959", last + "000000", last + "120000", f"{y:04}{mo:02}01000000", f"{y:04}{mo:02}01235959"]
+        if leap(y):
+            out += [f"{y:04}0229000000", f"{y:04}0229235959", f"{y:04}0228235959", f"{y:04}0301000000"]
+    return list(dict.fromkeys(out))
+
+
+def zone_instants(ctx, z, years, n_rand):
+    """(class, 14 digits) around every skipped / repeated local hour of the years, and the local wall-clock readings
+    of remarkable UTC instants in this zone"""
+    out = []
+    for y in years:
+        for kind, lo, hi in transitions(z, y):
+            span = hi - lo
+            offs = {-3600, -61, -60, -1, 0, 1, 59, 60, 61, span // 2, span - 61, span - 60, span - 1, span, span + 1,
+                    span + 60, span + 61, span + 3600, -span, 2 * span - 1, 2 * span}
+            offs |= set(range(0, span, 420))
+            offs |= {ctx.rng.randrange(-span, 2 * span) for _ in range(n_rand)}
+            for o in sorted(offs):
+                t = lo + o
+                if in_range(t):
+                    cls = ("skipped-hour" if kind == "gap" else "repeated-hour") if lo <= t < hi else "next-to-transition"
+                    out.append((cls, wall(t)))
+            for off in {z["std"], z["dst"]}:  # the same instants on the UTC clock
+                for t in (lo - off, hi - off):
+                    if in_range(t):
+                        out.append(("utc-reading-of-transition", wall(t)))
+    for u in ("20000101000000", "20991231235959", "21000101000000", "19991231235959", "20380119031407", "20380119031408",
+              "20240229120000", "20010909014640"):
+        for off in {z["std"], z.get("dst") if z.get("dst") is not None else z["std"]}:
+            for d in (-1, 0, 1):
+                for t in (secs(u) + off + d, secs(u) - off + d):
+                    if in_range(t):
+                        out.append(("utc-landmark-on-local-clock", wall(t)))
+    return out
+
+
+def libc_confirms(kind, lo, hi):
+    """does the C library, under the TZ that is active, agree that the middle of [lo, hi) is skipped / repeated?"""
+    f = fields(wall(lo + (hi - lo) // 2))
+    try:
+        a = datetime.datetime(*f)
+        if kind == "gap":
+            return datetime.datetime.fromtimestamp(a.timestamp()) != a
+        return a.timestamp() != a.replace(fold=1).timestamp()
+    except (OverflowError, OSError, ValueError):
+        return False
 
 
 def run_infotime(ctx, M):
@@ -515,24 +1227,15 @@ def run_infotime(ctx, M):
         mo = ctx.rng.randrange(1, 13)
         d = ctx.rng.randrange(1, dim(y, mo) + 1)
         cases.append(f"{y:04}{mo:02}{d:02}{ctx.rng.randrange(24):02}{ctx.rng.randrange(60):02}{ctx.rng.randrange(60):02}")
-    wl, dl = [], []
+    wl, dl = {}, {}
+    forms = NAIVE_FORMS[:3]
     for n, s in enumerate(cases):
-        form = n % 3
-        arg = s if form == 0 else int(s) if form == 1 else datetime.datetime.strptime(s, "%Y%m%d%H%M%S")
-        b = call(M.write_infotime, arg)
-        wl.append((f"it.write {s}", hx(b)))
-        ctx.case(("it", s), sample={"op": "write_infotime + as_xml", "value": s, "octets": hx(b)} if n == 0 else None)
-        ctx.count(f"infotime:{('str', 'int', 'datetime')[form]}")
-        if isinstance(b, str):
-            ctx.fail("infotime-write-raises", {"op": "infotime", "value": s, "form": form}, f"write_infotime({arg!r}) raised {b}")
-            continue
-        x = call(xml_of, "info-time", b)
-        mm = re.search(r"<info-time>([^<]*)</info-time>", x)
-        text = mm.group(1) if mm else x
-        dl.append((f"it.decode {b.hex()}", text.replace(" ", "_")))
-        if text != s or len(b) != 5:
-            ctx.fail("infotime-roundtrip", {"op": "infotime", "value": s, "form": form},
-                     f"XML view of write_infotime({s}) shows {text!r}", expected=s, actual=text)
+        form = forms[n % 3] if n % 11 else ("datetime-fold1", "datetime-subclass")[(n // 11) % 2]
+        ctx.case(("it", s), sample={"op": "write_infotime + as_xml", "value": s,
+                                    "octets": hx(call(M.write_infotime, s))} if n == 0 else None)
+        ctx.count(f"infotime:{form}")
+        it_check(ctx, M, s, form, None, wl, dl, n)
+    wl, dl = list(wl), list(dl)
     # strings strptime must reject / accept at the calendar's edges (correspondence only)
     for s in ("20030230000000", "20031301000000", "20030631000000", "20030630240000", "20030630236000",
               "20030630235960", "20030600000000", "20030001000000", "00000101000000", "21000229000000",
@@ -541,13 +1244,198 @@ def run_infotime(ctx, M):
         ctx.case(("it-edge", s))
     for _ in range(ctx.budget(300, 10000)):
         b = bytes(ctx.rng.randrange(256) for _ in range(5))
-        x = call(xml_of, "info-time", b)
-        mm = re.search(r"<info-time>([^<]*)</info-time>", x)
-        dl.append((f"it.decode {b.hex()}", (mm.group(1) if mm else x).replace(" ", "_")))
+        dl.append((f"it.decode {b.hex()}", xml_infotime(b).replace(" ", "_")))
         ctx.case(("it-decode", b))
     if not ctx.search_only and ctx.driver_ok:
         ctx.correspond("write_infotime", wl)
         ctx.correspond("as_xml info-time", dl)
+
+
+# ---------------------------------------------------------------- a sample of every codec, re-executable from its key
+def probe_keys(ctx, M):
+    """[(key, expected | None)]: key is a JSON-able call description (see probe_exec); expected is the harness' own
+    answer where it has one, otherwise the result under the process' default setting is the reference"""
+    rng = ctx.rng
+    out = []
+    us = [0, 1, 127, 128, 129, 255, 256, 896, 16383, 16384, 16512, 2**21 - 1, 2**21, 2**28 - 1, 2**28, U_MAX - 127, U_MAX]
+    us += [rng.randrange(2 ** rng.randrange(1, 33)) for _ in range(60)]
+    for v in us:
+        e = enc_u(v)
+        out.append((["uw", v], e.hex()))
+        out.append((["ur", (b"\xff" + e + b"\x80").hex(), 1], f"{v} {1 + len(e)}"))
+    ss = [0, 1, -1, 63, 64, -64, 65, 8191, 8192, -8192, 2**20, -(2**20), S_MAX, -S_MAX]
+    ss += [rng.choice((1, -1)) * rng.randrange(2 ** rng.randrange(1, 32)) for _ in range(60)]
+    for v in ss:
+        e = enc_s(abs(v), v < 0)
+        out.append((["sw", v], e.hex()))
+        out.append((["sr", (e + b"\x7f").hex(), 0], f"{v} {len(e)} {-1 if v < 0 else 1}"))
+    grid = [(1, 1, 2), (1, 127, 2), (0, 1, 3), (0, 1, 2), (128, 0, 1), (64, 10, 1), (0, 10, 1), (160, 983, 2), (37, 64, 1)]
+    grid += [(rng.randrange(2 ** rng.randrange(1, 31)), rng.randrange(128**p), p) for p in (1, 2, 3) for _ in range(25)]
+    for (i, f, p) in grid:
+        v = i + f / 128**p
+        e = enc_u(i) + enc_frac(f, p)
+        out.append((["ufw", v.hex(), p], e.hex()))
+        out.append((["ufr", e.hex(), 0], fstr(v, len(e))))
+        for sgn in (1, -1):
+            e = enc_s(i, sgn < 0 and (i, f) != (0, 0)) + enc_frac(f, p)
+            out.append((["sfw", (sgn * v).hex(), p], e.hex()))
+            out.append((["sfr", e.hex(), 0], fstr(sgn * v if (i, f) != (0, 0) else 0.0, len(e))))
+    for _ in range(40):
+        data = bytes(rng.randrange(256) for _ in range(rng.randrange(1, 8)))
+        for op in ("ur", "sr", "ufr", "sfr"):
+            out.append(([op, data.hex(), 0], None))
+    for m in [0, 1, 12345345, 45000000, 89999911, 89999999, 90000000] + [rng.randrange(90000001) for _ in range(40)]:
+        out.append((["lat", m], str(m / 1e6)))
+        out.append((["latb", m], None))
+    for m in [0, 1, 24668866, 179999999, 180000000, 359999999] + [rng.randrange(360000000) for _ in range(40)]:
+        out.append((["lon", m], str(m / 1e6)))
+        out.append((["lonb", m], None))
+    for x in [1 / 128, 11519 / 128, 0.5e-6, 89.9999995, 90 - 9e-8, 90 - 1e-9] + [rng.random() * 90 for _ in range(30)]:
+        out.append((["latd", x.hex()], str(micro_round(x) / 1e6)))
+    for x in [3 / 128, 46079 / 128 - 1, 1.5e-6, 359.9999994] + [rng.random() * 359.9 for _ in range(30)]:
+        out.append((["lond", x.hex()], str(micro_round(x) / 1e6)))
+    return out
+
+
+def probe_exec(M, key):
+    op = key[0]
+    if op == "uw":
+        return hx(call(M.write_uintvar, key[1]))
+    if op == "sw":
+        return hx(call(M.write_sintvar, key[1]))
+    if op in ("ur", "sr"):
+        r = call(M.read_uintvar if op == "ur" else M.read_sintvar, bytes.fromhex(key[1]), key[2])
+        return r if isinstance(r, str) else " ".join(str(q) for q in r)
+    if op in ("ufw", "sfw"):
+        return hx(call(M.write_ufloatvar if op == "ufw" else M.write_sfloatvar, float.fromhex(key[1]), key[2]))
+    if op in ("ufr", "sfr"):
+        r = call(M.read_ufloatvar if op == "ufr" else M.read_sfloatvar, bytes.fromhex(key[1]), key[2])
+        return r if isinstance(r, str) else fstr(r[0], r[1])
+    if op in ("lat", "latb", "latd", "lon", "lonb", "lond"):
+        x = float.fromhex(key[1]) if op.endswith("d") else key[1] / 1e6
+        lat = op.startswith("lat")
+        b = call(M.write_latitude if lat else M.write_longitude, x)
+        if isinstance(b, str) or op.endswith("b"):
+            return hx(b)
+        la, lo = xml_latlon(b, bytes(4)) if lat else xml_latlon(bytes(4), b)
+        return la if lat else lo
+    raise ValueError(key)
+
+
+def run_probe(ctx, M, keys, cfg, baseline):
+    """the sample of every codec under the ambient setting that is active; returns the results"""
+    res = []
+    for n, (key, want) in enumerate(keys):
+        got = probe_exec(M, key)
+        res.append(got)
+        ref = want if want is not None else (baseline[n] if baseline is not None else None)
+        ctx.case(("probe", amb_text(cfg), key), nontrivial=baseline is None)
+        if ref is not None and got != ref:
+            inp = {"op": "probe", "call": key}
+            if cfg:
+                inp["ambient"] = cfg
+            ctx.fail("codec-result" if baseline is None or baseline[n] == got else "ambient-dependent-result", inp,
+                     f"{key[0]}({', '.join(str(k) for k in key[1:])}) gives {got} under [{amb_text(cfg)}]",
+                     expected=ref, actual=got)
+    return res
+
+
+# ---------------------------------------------------------------- the same codecs under other ambient settings
+def run_ambient(ctx, M):
+    """result depends on ambient process configuration: time zone, locale, decimal context.  The date-time part
+    of the oracle (skipped / repeated local hours of each zone computed from its POSIX rule, the minutes around them,
+    calendar boundaries) and a sample of every other codec are repeated under each setting; the expected values come
+    from the harness' calendar arithmetic and the Lean model, which read no ambient state."""
+    keys = probe_keys(ctx, M)
+    baseline = run_probe(ctx, M, keys, None, None)
+    ctx.count("ambient:probe-calls-per-setting", len(keys))
+    generic = generic_instants(ctx)
+    years = list(range(2000, 2100)) if ctx.thorough() else sorted(
+        {2000, 2001, 2010, 2021, 2024, 2037, 2038, 2050, 2099} | {ctx.rng.randrange(2000, 2100) for _ in range(2)})
+    wl, dl, cal = {}, {}, {}
+    zones = [(tz, parse_posix_tz(tz)) for tz in POSIX_ZONES]
+    zoneinfo = "/usr/share/zoneinfo"
+    named = [(tz, None) for tz in NAMED_ZONES if os.path.exists(os.path.join(zoneinfo, tz))]
+    ctx.count("ambient:named-zones-available", len(named))
+    naive_later = []  # (cfg, s, form): the forms whose expected value is debatable run after all naive ones
+    n = 0
+    for tz, z in zones + named:
+        cfg = {"tz": tz}
+        inst = [("generic", s) for s in generic]
+        if z is not None:
+            inst = zone_instants(ctx, z, years, 3) + inst
+            for y in years:  # the harness' transition arithmetic is confirmed by the Lean calendar (below)
+                for kind, lo, hi in transitions(z, y):
+                    cal[(f"cal.add {wall(lo)} {hi - lo}", wall(hi))] = None
+                for rule in ((z["start"], z["end"]) if z["dst"] is not None else ()):
+                    w = rule_wall(rule, y)
+                    cal[(f"cal.add {y:04}0101000000 {w - secs(f'{y:04}0101000000')}", wall(w))] = None
+                    if rule[0] == "M":
+                        day = rule_day(y, rule[1], rule[2], rule[3])
+                        cal[(f"cal.rule {y} {rule[1]} {rule[2]} {rule[3]}", str(day))] = None
+                        cal[(f"cal.dow {y:04}{rule[1]:02}{day:02}000000", str(rule[3]))] = None
+        else:
+            inst = [("named-zone-anomaly", s) for s in NAMED_ZONES[tz]] + inst
+        with ambient(cfg):
+            if z is not None:
+                for y in years:
+                    for kind, lo, hi in transitions(z, y):
+                        if in_range(lo) and in_range(hi):
+                            ctx.count("ambient:transition-confirmed-by-libc" if libc_confirms(kind, lo, hi)
+                                      else f"ambient:transition-NOT-confirmed-by-libc:{tz}")
+            for k, (cls, s) in enumerate(dict.fromkeys(inst)):
+                special = cls in ("skipped-hour", "repeated-hour", "named-zone-anomaly")
+                forms = NAIVE_FORMS if special or k % 5 == 0 else (NAIVE_FORMS[k % 3],)
+                for form in forms:
+                    n += 1
+                    ctx.case(("amb-it", tz, s, form))
+                    ctx.count(f"ambient:infotime:{cls}")
+                    it_check(ctx, M, s, form, cfg, wl, dl, n)
+                if special or k % 7 == 0:
+                    naive_later.append((cfg, s, OTHER_FORMS[k % len(OTHER_FORMS)]))
+            run_probe(ctx, M, keys, cfg, baseline)
+        ctx.count("ambient:time-zones")
+    # locale and decimal context, alone and together with a DST zone
+    others = []
+    for loc in available_locales():
+        others.append({"locale": loc})
+        others.append({"locale": loc, "tz": "CET-1CEST,M3.5.0,M10.5.0/3"})
+    if custom_locale_dir():
+        others.append({"locale": CUSTOM_LOCALE, "custom_locale": True})
+        others.append({"locale": CUSTOM_LOCALE, "custom_locale": True, "tz": "EST5EDT,M3.2.0,M11.1.0"})
+        others.append({"locale": CUSTOM_LOCALE, "custom_locale": True, "decimal": "prec=3,ROUND_FLOOR,traps=Inexact+Rounded"})
+        ctx.count("ambient:decimal-comma-locale-compiled-with-localedef")
+    else:
+        ctx.count("ambient:decimal-comma-locale-NOT-available(no localedef)")
+    for name in DECIMAL_CONTEXTS:
+        others.append({"decimal": name})
+    others.append({"decimal": "prec=1,ROUND_UP", "tz": "AEST-10AEDT,M10.1.0,M4.1.0/3", "locale": "C"})
+    cet = parse_posix_tz("CET-1CEST,M3.5.0,M10.5.0/3")
+    sample = [s for _, s in zone_instants(ctx, cet, years[:4], 1)][::3] + generic[::2]
+    for cfg in others:
+        with ambient(cfg):
+            for k, s in enumerate(dict.fromkeys(sample)):
+                form = NAIVE_FORMS[k % 4]
+                n += 1
+                ctx.case(("amb-it", amb_text(cfg), s, form))
+                ctx.count("ambient:infotime:locale/decimal-context")
+                it_check(ctx, M, s, form, cfg, wl, dl, n)
+            run_probe(ctx, M, keys, cfg, baseline)
+        ctx.count("ambient:locale/decimal-settings")
+    for k, s in enumerate(generic):
+        naive_later.append((None, s, OTHER_FORMS[k % len(OTHER_FORMS)]))
+    for cfg, s, form in naive_later:
+        with ambient(cfg):
+            n += 1
+            ctx.case(("amb-it", amb_text(cfg), s, form))
+            ctx.count(f"ambient:infotime:form={form}")
+            it_check(ctx, M, s, form, cfg, wl, dl, n)
+    if not ctx.search_only and ctx.driver_ok:
+        ctx.correspond("write_infotime (other time zones / locales / decimal contexts)", list(wl))
+        ctx.correspond("as_xml info-time (other time zones / locales / decimal contexts)", list(dl))
+        if ctx.correspond("calendar arithmetic of the harness = Lean calendar", list(cal)):
+            raise Infra("the harness' transition arithmetic and the Lean calendar disagree: "
+                        + json.dumps([d for d in ctx.disagreements if d["component"].startswith("calendar")][:3]))
 
 
 def run(ctx):
@@ -556,40 +1444,58 @@ def run(ctx):
     ctx.rule = (
         "unsigned: corpus of historically mis-encoded values (multiples of 128), dense 0..2^14 (quick) / 0..2^21 "
         "(thorough), j*128^k±1 and 2^k±1 up to 2^32-1, random with uniform bit length; each written, checked against "
-        "an independent canonical-shortest-form predicate, and read back at a random offset inside random leading / "
-        "trailing octets.  signed: the same on ±values (dense ±2^13 / ±2^20, sign-septet boundaries 64*128^k±1), plus "
-        "negative zero and a collision check.  floats: grid i + f/128^p, p=1..3 (all f for p=1, all 16384 for p=2 in "
-        "thorough, boundary + random f otherwise), both signs incl. zero integer part, plus arbitrary doubles.  "
-        "latitude/longitude in micro-degrees (all multiples of 0.703125 degrees ±1e-6, random) and date-times of "
-        "2000..2099 (month ends, leap days; str/int/datetime input) through the real as_xml.  random octets through "
-        "all four readers.  A case is non-trivial unless the value is 0; distinct = distinct (codec, value[, precision])."
+        "an independent canonical-shortest-form predicate and an independent encoder, and read back at a random offset "
+        "inside random leading / trailing octets.  signed: the same on ±values (dense ±2^13 / ±2^20, sign-septet "
+        "boundaries 64*128^k±1), plus negative zero and a collision check.  floats: grid i + f/128^p, p=1..3 (all f for "
+        "p=1, all 16384 for p=2 in thorough, boundary + random f otherwise), both signs incl. zero integer part, plus "
+        "arbitrary doubles.  latitude/longitude in micro-degrees: a dense 1e-6 grid on both sides of every constant of "
+        "the writers (0, 45, 90 / 0, 90, 180, 270, 360 degrees and every numeric literal found in the writers' source on "
+        "this run; ±2500 resp. ±300 micro-degrees quick, ±100000 / ±5000 thorough), the edges of every window a "
+        "tolerance literal could open, all multiples of 0.703125 degrees ±1e-6, random; doubles off the grid (exact "
+        "rounding ties j/128, the doubles at and next to midpoints (k+0.5)e-6, the edges of the isclose window at the "
+        "pole) must show the correctly rounded six decimals; all three XML views (point-2d, circle-2d, point-3d).  "
+        "date-times of 2000..2099 (month ends, leap days; str / int / datetime / fold=1 / subclass / aware input) "
+        "through the real as_xml.  AMBIENT SETTINGS, switched inside the process and restored afterwards: "
+        f"{len(POSIX_ZONES)} POSIX TZ strings (UTC, northern and southern DST rules, half-hour and 45-minute offsets "
+        "and shifts, ±11..14 h, midnight and 24:00 transitions, negative DST, Julian-day rules) plus named zones when "
+        "the tz database is present, every locale available, three decimal contexts; for each zone the skipped and the "
+        "repeated local hours of 11 years (all 100 in thorough) computed from the POSIX rule by the harness (confirmed "
+        "by the Lean calendar and by libc), the seconds and minutes around them, their UTC readings, calendar "
+        "boundaries, the 32-bit time_t limit, and a sample of every other codec.  random octets through all four "
+        "readers.  A case is non-trivial unless the value is 0; distinct = distinct (codec, value[, precision][, setting])."
     )
     ctx.trusted_base += [
         "Lean 4.33 kernel",
         "tools/extract_mbxml.py (UINTVAR_MAX / SINTVAR_MAX read from the class)",
-        "hand-written model of the readers/writers/XML formulas (Model/Mbxml.lean), tied to the code by this run's correspondence",
+        "hand-written model of the readers/writers/XML formulas (Model/Mbxml.lean, Model/MbxmlX.lean), tied to the code by this run's correspondence",
         "IEEE-754 doubles are modelled as exact dyadic rationals: the writers' float arithmetic (int(), % 1, * 128**p) is exact, "
-        "the readers' `integer + decimal / 128**k` and the lat/long `round(x, 6) * 2**31 / 90` are only cross-checked "
-        "(compared exactly whenever the exact result is a double, error-analysis argument in Model/Mbxml.lean for lat/long)",
+        "the readers' `integer + decimal / 128**k` is only cross-checked (compared exactly whenever the exact result is a double); "
+        "the lat/long `round(x, 6) * 2**31 / 90` is modelled twice: as the integer formula m*2^24/703125 used by the theorems "
+        "(error-analysis argument in Model/Mbxml.lean) and step by step in double arithmetic (fl53 of Model/MbxmlX.lean); "
+        "both are compared with the code on every value of this run",
         "Python's round(x, 6) is taken to be correctly rounded half-to-even on the exact binary value; datetime.strptime's calendar is modelled",
+        "the expected date-time fields come from the digits themselves (harness) and from the Lean model; neither reads TZ, locale or any other ambient state",
     ]
     ctx.assumptions += [
         "precision small enough that 128**precision is a finite double (p <= 146); the property asks for p = 1..3",
-        "write_ufloatvar is only given non-negative values; latitude/longitude arguments are the doubles nearest to multiples of 1e-6",
+        "write_ufloatvar is only given non-negative values; latitude/longitude arguments are non-negative doubles "
+        "(multiples of 1e-6 are inverted exactly, other doubles are shown rounded to six decimals)",
         "negative latitudes/longitudes raise OverflowError in to_bytes (unsigned four octets): outside the writers' domain, not part of the property",
+        "an aware datetime / a datetime with microseconds is written with its own wall-clock fields (what the code does); "
+        "ambient settings are switched with os.environ + time.tzset / locale.setlocale / decimal.setcontext in this process",
     ]
     run_uint(ctx, M)
     run_sint(ctx, M)
     run_floats(ctx, M)
     run_latlon(ctx, M)
     run_infotime(ctx, M)
+    run_ambient(ctx, M)
     run_random_reads(ctx, M)
     ctx.exhaustive = False
 
 
 def model_says(lines):
     """run the compiled Lean model on protocol lines (best effort: the driver may not be built)"""
-    import os
     import subprocess
 
     from common import BIN
@@ -612,6 +1518,16 @@ def replay(obj):
     for d in (obj.get("correspondence_differences") or [])[:5]:
         print("correspondence difference:", d)
     op = inp.get("op")
+    cfg = inp.get("ambient")
+    if cfg:
+        print(f"ambient setting of the process for this replay: {amb_text(cfg)}")
+    with ambient(cfg):
+        still = _replay(M, op, inp, f.get("expected"))
+    print("expected:", f.get("expected"), "actual:", f.get("actual"))
+    return still
+
+
+def _replay(M, op, inp, expected=None):
     still = 1
     if op == "uintvar":
         v = inp["value"]
@@ -620,7 +1536,7 @@ def replay(obj):
         r = call(M.read_uintvar, pre + w, len(pre)) if isinstance(w, str) else call(M.read_uintvar, pre + w + tr, len(pre))
         print(f"implementation write_uintvar({v}) = {hx(w)}; read back {r}; canonical: {None if isinstance(w, str) else canon_u(w, v)}")
         model_says([f"uv.write {v}"] + ([] if isinstance(w, str) else [f"uv.read {hx(pre + w + tr)} {len(pre)}"]))
-        still = 0 if (not isinstance(w, str) and canon_u(w, v) is None and r == (v, len(pre) + len(w))) else 1
+        still = 0 if (not isinstance(w, str) and canon_u(w, v) is None and w == enc_u(v) and r == (v, len(pre) + len(w))) else 1
     elif op == "sintvar":
         v = inp["value"]
         w = call(M.write_sintvar, v)
@@ -654,22 +1570,42 @@ def replay(obj):
     elif op in ("lat", "lon"):
         m = inp["microdegrees"]
         x = m / 1e6
+        view = inp.get("view", "point-2d")
         b = call(M.write_latitude if op == "lat" else M.write_longitude, x)
         if isinstance(b, str):
             print(f"implementation write raised {b}")
         else:
-            la, lo = xml_latlon(b, bytes(4)) if op == "lat" else xml_latlon(bytes(4), b)
+            la, lo = xml_latlon(b, bytes(4), view) if op == "lat" else xml_latlon(bytes(4), b, view)
             text = la if op == "lat" else lo
-            print(f"implementation write_{op}({x!r}) = {b.hex()}; XML view shows {text}")
+            print(f"implementation write_{op}({x!r}) = {b.hex()}; XML view ({view}) shows {text}")
             model_says([f"{op}.write {m}", f"{op}.decode {b.hex()}"])
             still = 0 if text == str(x) else 1
+    elif op in ("latd", "lond"):
+        x = float.fromhex(inp["value"])
+        which = op[:3]
+        b = call(M.write_latitude if which == "lat" else M.write_longitude, x)
+        if isinstance(b, str):
+            print(f"implementation write raised {b}")
+        else:
+            la, lo = xml_latlon(b, bytes(4)) if which == "lat" else xml_latlon(bytes(4), b)
+            text = la if which == "lat" else lo
+            want = str(micro_round(x) / 1e6)
+            print(f"implementation write_{which}({x!r}) = {b.hex()}; XML view shows {text}; six decimals of the value: {want}")
+            if x >= 0:
+                neg, num, exp = dyadic(x)
+                model_says([f"{which}.writed {num} {exp}", f"{which}.decode {b.hex()}"])
+            still = 0 if text == want else 1
     elif op == "infotime":
-        s = inp["value"]
-        b = call(M.write_infotime, s)
-        x = b if isinstance(b, str) else call(xml_of, "info-time", b)
-        mm = re.search(r"<info-time>([^<]*)</info-time>", x)
-        print(f"implementation write_infotime({s}) = {hx(b)}; XML view shows {mm.group(1) if mm else x!r}")
+        s, form = inp["value"], inp.get("form", "str")
+        arg = it_arg(s, form)
+        b = call(M.write_infotime, arg)
+        text = b if isinstance(b, str) else xml_infotime(b)
+        print(f"implementation write_infotime({arg!r}) = {hx(b)}; XML view shows {text!r}")
         model_says([f"it.write {s}"] + ([] if isinstance(b, str) else [f"it.decode {b.hex()}"]))
-        still = 0 if (mm and mm.group(1) == s) else 1
-    print("expected:", f.get("expected"), "actual:", f.get("actual"))
+        still = 0 if text == s else 1
+    elif op == "probe":
+        key = inp["call"]
+        got = probe_exec(M, key)
+        print(f"implementation {key} -> {got}")
+        still = 0 if got == expected else 1
     return still
